@@ -47,6 +47,7 @@ def item_texts(path):
     src = strip(open(path, encoding="utf-8").read())
     # drop test modules
     res, depth, i, n = {}, 0, 0, len(src)
+    par = 0
     chunks, start = [], 0     # depth-0 statements: split at `;` or at the `}` closing a depth-0 block
     in_str = False
     while i < n:
@@ -57,13 +58,23 @@ def item_texts(path):
                 j += 2 if src[j] == "\\" else 1
             i = j + 1
             continue
+        if c == "'":
+            m = re.match(r"'(\\.|[^\\'])'", src[i:])
+            if m:
+                i += len(m.group(0))
+                continue
         if c == "{":
             depth += 1
         elif c == "}":
             depth -= 1
-            if depth == 0:
+            if depth == 0 and par == 0:
                 chunks.append(src[start:i + 1]); start = i + 1
-        elif c == ";" and depth == 0:
+        elif c in "([":
+            par += 1
+        elif c in ")]":
+            par -= 1
+        elif c == ";" and depth == 0 and par == 0:
+            # `;` inside `[T; N]` or `(..)` does not end an item
             chunks.append(src[start:i + 1]); start = i + 1
         i += 1
     for ch in chunks:
